@@ -176,6 +176,9 @@ pub fn base_pool() -> Vec<&'static str> {
         "http://[::1]:81/p",
         "http://1.2.3.4/p?q",
         "file://localhost/x",
+        "file://127.0.0.1/share/f",
+        "file://[::1]/x/y",
+        "http://[1:0:0:2:0:0:3:4]/",
     ]
 }
 
@@ -185,6 +188,7 @@ pub fn atoms() -> Vec<&'static str> {
         "%41", "a", "b", "c:", "C|", "c:/", "/c:", "d|/", "1", "80", "443", "65535", "65536", "0", "x y", " ", "\t", "\n", "\r",
         "\u{e9}", "\u{5d0}", "\u{1f600}", "\"", "<", ">", "`", "{", "}", "'", "^", "|", "[", "]", "[::1]", "[1:2::3]", "1.2.3.4",
         "0x7f.1", "localhost", "LocalHost", "ex%41mple.com", "EXAMPLE.com", "xn--4db", "user", "pass", "u:p@", "@h", "a@b@c", ":80",
+        "[1:0:0:2:0:0:3:4]", "[0:0:1:0:0:1:0:0]", "[::ffff:1.2.3.4]", "1.2.3.256", "1.2.65536", "0x100.1", "1.2.3.4.", "4294967295",
         ":", "http:", "file:", "non-spec:", "HTTP:", "a:", "//h", "//h/", "//h:1/p", "//u@h", "path", "dir/", "file.txt", "?q=1", "#frag",
         "?", "#", "a=b&c=d", "\u{0}", "\u{7f}", "\u{80}", "\u{a0}", "\u{fffd}", "=", "&", "+", ";", ",", "$", "!", "*", "(", ")", "~", "_", "-",
     ]
@@ -218,7 +222,9 @@ pub fn random_url_string(rng: &mut Rng) -> String {
             if rng.chance(2, 3) {
                 s.push_str(ps(rng, &[
                     "h", "example.com", "EXAMPLE.COM", "[::1]", "1.2.3.4", "0x7f.1", "localhost", "c:", "C|", "", "h.", "xn--4db", "\u{5d0}.com", "a b",
-                    "h%41", "[1::2:3]", "256.1.1.1", "h\th",
+                    "h%41", "[1::2:3]", "256.1.1.1", "h\th", "[1:0:0:2:0:0:3:4]", "[0:0:1:0:0:1:0:0]", "[1:0:0:0:2:0:0:0]", "[0:1:0:0:1:0:0:1]",
+                    "[::ffff:1.2.3.4]", "[1:2:3:4:5:6:7:8]", "[0:0:0:0:0:0:0:0]", "1.2.3.256", "1.2.65536", "1.16777216", "4294967296", "4294967295",
+                    "0x100.1", "0377.1", "08", "1.2.3.4.", "1.2.3.4.5", "1..2", "0x", "1.0x1000000", "255.255.255.256", "h.0x7f", "a.b.09",
                 ]));
                 if rng.chance(1, 3) {
                     s.push_str(ps(rng, &[":80", ":443", ":8080", ":", ":0", ":65535", ":65536", ":21", ":x", ":8\\", ":8/"]));
